@@ -5,6 +5,7 @@
  *   k14_desc --jobs <casefile> --variant <name> [--eps 0,1,2,3] [--batch N]
  *   k14_desc --direct --variant <name>
  *   k14_desc --strerror
+ *   k14_desc --custom --variant <name>
  *
  * --jobs: every work item (K1 format, see K1_FORMAT.md) goes through entry points 0..3 of one
  * implementation variant, N items sharing the scheduler.  The descriptor is copied right
@@ -21,6 +22,7 @@
  *   X var= ep= id= what=<text>                                   other anomalies (job never returned, ...)
  *   D var= name= kind=<ok|fail> expect= get= field= glob=         --direct battery
  *   S code= str=<text>                                           --strerror
+ *   U var= ep= idx= c= h= order= status= ccalls= hcalls= anyfail= same= get= field= retcall=   --custom battery
  *   T ...                                                        totals
  */
 #include <stdio.h>
@@ -749,6 +751,242 @@ run_direct(IMB_MGR *mgr)
 
 /* ------------------------------------------------------------------------- */
 
+/* ------------------------------------------------------------------------- */
+/* --custom: user-supplied cipher / hash callbacks that succeed or fail, both chain orders, chained
+ * with library algorithms that complete at once or park in a scheduler, with other jobs in flight */
+struct cust {
+        int cfail, hfail, ccalls, hcalls, cret, hret;
+};
+
+static int
+cust_cipher(IMB_JOB *job)
+{
+        struct cust *c = (struct cust *) job->user_data2;
+
+        c->ccalls++;
+        if (c->cfail)
+                c->cret = 1;
+        return c->cfail;
+}
+
+static int
+cust_hash(IMB_JOB *job)
+{
+        struct cust *c = (struct cust *) job->user_data2;
+
+        c->hcalls++;
+        if (c->hfail)
+                c->hret = 1;
+        return c->hfail;
+}
+
+/* cipher kinds: 0 custom ok, 1 custom failing, 2 NULL, 3 CBC-128 enc, 4 CBC-128 dec, 5 CTR-128
+ * hash kinds:   0 custom ok, 1 custom failing, 2 NULL, 3 HMAC-SHA1, 4 SHA-256, 5 AES-CMAC */
+static void
+cust_fill(IMB_JOB *j, const int ck, const int hk, const int order, struct cust *c, uint8_t *src, uint8_t *dst,
+          uint8_t *tag, const void *ek, const void *dk, uint8_t *iv, const uint8_t *ipad, const uint8_t *opad,
+          const void *k1, const void *k2, const void *k3, const uint64_t len)
+{
+        memset(j, 0, sizeof(*j));
+        memset(c, 0, sizeof(*c));
+        j->chain_order = order ? IMB_ORDER_HASH_CIPHER : IMB_ORDER_CIPHER_HASH;
+        j->src = src;
+        j->dst = dst;
+        j->user_data = (void *) (uintptr_t) 0x1234567811223344ULL;
+        j->user_data2 = c;
+        j->msg_len_to_cipher_in_bytes = len;
+        j->cipher_start_src_offset_in_bytes = 0;
+        j->iv = iv;
+        j->iv_len_in_bytes = 16;
+        j->enc_keys = ek;
+        j->dec_keys = dk;
+        j->key_len_in_bytes = 16;
+        j->cipher_direction = IMB_DIR_ENCRYPT;
+        switch (ck) {
+        case 0:
+        case 1:
+                j->cipher_mode = IMB_CIPHER_CUSTOM;
+                j->cipher_func = cust_cipher;
+                c->cfail = ck;
+                break;
+        case 2:
+                j->cipher_mode = IMB_CIPHER_NULL;
+                break;
+        case 3:
+                j->cipher_mode = IMB_CIPHER_CBC;
+                break;
+        case 4:
+                j->cipher_mode = IMB_CIPHER_CBC;
+                j->cipher_direction = IMB_DIR_DECRYPT;
+                break;
+        default:
+                j->cipher_mode = IMB_CIPHER_CNTR;
+                break;
+        }
+        j->hash_start_src_offset_in_bytes = 0;
+        j->msg_len_to_hash_in_bytes = len;
+        j->auth_tag_output = tag;
+        switch (hk) {
+        case 0:
+        case 1:
+                j->hash_alg = IMB_AUTH_CUSTOM;
+                j->hash_func = cust_hash;
+                j->auth_tag_output_len_in_bytes = 16;
+                c->hfail = hk;
+                break;
+        case 2:
+                j->hash_alg = IMB_AUTH_NULL;
+                j->auth_tag_output = NULL;
+                break;
+        case 3:
+                j->hash_alg = IMB_AUTH_HMAC_SHA_1;
+                j->auth_tag_output_len_in_bytes = 12;
+                j->u.HMAC._hashed_auth_key_xor_ipad = ipad;
+                j->u.HMAC._hashed_auth_key_xor_opad = opad;
+                break;
+        case 4:
+                j->hash_alg = IMB_AUTH_SHA_256;
+                j->auth_tag_output_len_in_bytes = 32;
+                break;
+        default:
+                j->hash_alg = IMB_AUTH_AES_CMAC;
+                j->auth_tag_output_len_in_bytes = 16;
+                j->u.CMAC._key_expanded = k1;
+                j->u.CMAC._skey1 = k2;
+                j->u.CMAC._skey2 = k3;
+                break;
+        }
+}
+
+#define CUST_BG 5
+static void
+cust_report(IMB_MGR *mgr, IMB_JOB *job, const IMB_JOB *copies, struct cust *cs, const int ntot, const int ep,
+            const char *retcall, int *seen)
+{
+        const int slot = slot_index(mgr, job);
+        struct cust *c = (struct cust *) job->user_data2;
+        const int idx = (int) (c - cs);
+
+        if (slot < 0 || idx < 0 || idx >= ntot) {
+                printf("X var=%s ep=%d id=-1 what=custom-returned-unknown-job\n", g_var, ep);
+                return;
+        }
+        seen[idx]++;
+        IMB_JOB a = copies[idx], b = *job;
+
+        a.status = b.status = 0;
+        if ((a.hash_alg == IMB_AUTH_AES_CMAC) && b.msg_len_to_hash_in_bits == a.msg_len_to_hash_in_bytes * 8)
+                b.msg_len_to_hash_in_bytes = a.msg_len_to_hash_in_bytes;
+        const int same = memcmp(&a, &b, sizeof(a)) == 0;
+
+        printf("U var=%s ep=%d idx=%d c=%d h=%d order=%d status=%d ccalls=%d hcalls=%d anyfail=%d same=%d get=%d field=%d "
+               "retcall=%s\n",
+               g_var, ep, idx, copies[idx].cipher_mode == IMB_CIPHER_CUSTOM ? c->cfail : -1,
+               copies[idx].hash_alg == IMB_AUTH_CUSTOM ? c->hfail : -1,
+               copies[idx].chain_order == IMB_ORDER_HASH_CIPHER, (int) job->status, c->ccalls, c->hcalls,
+               c->cret | c->hret, same, imb_get_errno(mgr), mgr->imb_errno, retcall);
+}
+
+static void
+run_custom(IMB_MGR *mgr)
+{
+        static uint8_t key[16] = { 9, 8, 7, 6, 5, 4, 3, 2, 1 };
+        static DECLARE_ALIGNED(uint32_t ek[60], 16);
+        static DECLARE_ALIGNED(uint32_t dk[60], 16);
+        static DECLARE_ALIGNED(uint8_t k1[16 * 11], 16);
+        static DECLARE_ALIGNED(uint8_t k2[16], 16);
+        static DECLARE_ALIGNED(uint8_t k3[16], 16);
+        static DECLARE_ALIGNED(uint8_t ipad[20], 16);
+        static DECLARE_ALIGNED(uint8_t opad[20], 16);
+        static DECLARE_ALIGNED(uint8_t iv[16], 16);
+        static uint8_t src[CUST_BG + 1][256], dst[CUST_BG + 1][256], tag[CUST_BG + 1][64];
+        static uint8_t hkey[20] = { 1, 2, 3 };
+        struct cust cs[CUST_BG + 1];
+        IMB_JOB copies[CUST_BG + 1];
+        IMB_JOB *arr[IMB_MAX_BURST_SIZE];
+        int seen[CUST_BG + 1];
+        unsigned long n = 0;
+
+        IMB_AES_KEYEXP_128(mgr, key, ek, dk);
+        IMB_AES_CMAC_SUBKEY_GEN_128(mgr, ek, k2, k3);
+        memcpy(k1, ek, sizeof(k1));
+        imb_hmac_ipad_opad(mgr, IMB_AUTH_HMAC_SHA_1, hkey, sizeof(hkey), ipad, opad);
+        for (unsigned i = 0; i < sizeof(src); i++)
+                ((uint8_t *) src)[i] = (uint8_t) (i * 7 + 3);
+        for (int ep = 0; ep < 4; ep++)
+                for (int ck = 0; ck < 6; ck++)
+                        for (int hk = 0; hk < 6; hk++)
+                                for (int order = 0; order < 2; order++)
+                                        for (int bg = 0; bg < 2; bg++) {
+                                                if (ck > 1 && hk > 1)
+                                                        continue;
+                                                /* the background jobs park in the CBC / HMAC / CMAC schedulers so that the job
+                                                 * under test is deferred and comes back through the flush / resubmit path */
+                                                const int nbg = bg ? CUST_BG : 0;
+                                                const int ntot = nbg + 1;
+                                                const uint64_t len = 64;
+
+                                                memset(seen, 0, sizeof(seen));
+                                                for (int i = 0; i < ntot; i++) {
+                                                        const int last = i == ntot - 1;
+
+                                                        cust_fill(&copies[i], last ? ck : 3, last ? hk : (i & 1 ? 3 : 5),
+                                                                  last ? order : (i >> 1) & 1, &cs[i], src[i], dst[i], tag[i], ek,
+                                                                  dk, iv, ipad, opad, k1, k2, k3, last ? len : 64 + 16 * (uint64_t) i);
+                                                }
+                                                g_ep = ep;
+                                                if (ep < 2) {
+                                                        for (int i = 0; i < ntot; i++) {
+                                                                IMB_JOB *j = IMB_GET_NEXT_JOB(mgr);
+
+                                                                *j = copies[i];
+                                                                j = ep == 1 ? IMB_SUBMIT_JOB_NOCHECK(mgr) : IMB_SUBMIT_JOB(mgr);
+                                                                while (j != NULL) {
+                                                                        cust_report(mgr, j, copies, cs, ntot, ep, "SUBMIT_JOB", seen);
+                                                                        j = IMB_GET_COMPLETED_JOB(mgr);
+                                                                }
+                                                        }
+                                                        for (IMB_JOB *j; (j = IMB_FLUSH_JOB(mgr)) != NULL;)
+                                                                cust_report(mgr, j, copies, cs, ntot, ep, "FLUSH_JOB", seen);
+                                                } else {
+                                                        const uint32_t got = IMB_GET_NEXT_BURST(mgr, (uint32_t) ntot, arr);
+
+                                                        if (got != (uint32_t) ntot) {
+                                                                printf("X var=%s ep=%d id=-1 what=custom-get-next-burst-short\n", g_var, ep);
+                                                                continue;
+                                                        }
+                                                        for (int i = 0; i < ntot; i++) {
+                                                                *arr[i] = copies[i];
+                                                                imb_set_session(mgr, arr[i]);
+                                                                copies[i] = *arr[i];
+                                                        }
+                                                        uint32_t done = ep == 3 ? IMB_SUBMIT_BURST_NOCHECK(mgr, (uint32_t) ntot, arr)
+                                                                                : IMB_SUBMIT_BURST(mgr, (uint32_t) ntot, arr);
+                                                        const char *rc = "SUBMIT_BURST";
+
+                                                        if (done == 0 && mgr->imb_errno != 0)
+                                                                printf("X var=%s ep=%d id=-1 what=custom-burst-refused(%d)c%dh%d\n", g_var, ep,
+                                                                       mgr->imb_errno, ck, hk);
+                                                        for (;;) {
+                                                                for (uint32_t i = 0; i < done; i++)
+                                                                        cust_report(mgr, arr[i], copies, cs, ntot, ep, rc, seen);
+                                                                done = IMB_FLUSH_BURST(mgr, IMB_MAX_BURST_SIZE, arr);
+                                                                rc = "FLUSH_BURST";
+                                                                if (done == 0)
+                                                                        break;
+                                                        }
+                                                }
+                                                for (int i = 0; i < ntot; i++)
+                                                        if (seen[i] != 1)
+                                                                printf("X var=%s ep=%d id=-1 what=custom-job-%d-returned-%d-times(c%dh%do%dbg%d)\n",
+                                                                       g_var, ep, i, seen[i], ck, hk, order, bg);
+                                                if (IMB_QUEUE_SIZE(mgr) != 0)
+                                                        printf("X var=%s ep=%d id=-1 what=custom-queue-not-empty\n", g_var, ep);
+                                                n++;
+                                        }
+        printf("T custom_scenarios=%lu\n", n);
+}
+
 static void
 run_strerror(void)
 {
@@ -800,6 +1038,8 @@ main(int argc, char **argv)
                         mode = 3;
                 else if (!strcmp(argv[i], "--list-variants"))
                         mode = 4;
+                else if (!strcmp(argv[i], "--custom"))
+                        mode = 5;
                 else if (!strcmp(argv[i], "--variant") && i + 1 < argc)
                         variant = argv[++i];
                 else if (!strcmp(argv[i], "--batch") && i + 1 < argc)
@@ -845,6 +1085,10 @@ main(int argc, char **argv)
         }
         if (mode == 2) {
                 run_direct(mgr);
+                return 0;
+        }
+        if (mode == 5) {
+                run_custom(mgr);
                 return 0;
         }
         return 2;
